@@ -35,6 +35,9 @@ CLAIMED = {
 
  "C13": ("proof", "Theorems over ℝ on the hand model of the three Newton iterations (bit-identical to the kernels incl. pass counts): Newton identity A phi' = b(phi) - j_d(phi) (.) y for every update with non-vanishing pivots (self_consistent_partial: the defect of the non-linear system is controlled by y, whose smallness is the property's convergence premise); exit only through the stopping test or the pass budget; the updated potential is exactly 0 at the wall when the boundary row is (0,1,.) and rhs/Jacobian vanish there; 2 pi trapz(r n) = nl (x shape_0 for the e-beam variant); shapes in (0,1], 1 at the reference, 1 for neutrals; heat capacity >= 3/2 on any non-decreasing grid (weighted Cauchy-Schwarz), = 3/2 for neutrals/flat potential. Monitored: residual, ion-free = beam potential, ions raise phi, 5/2 harmonic limit.",
          "§4 C13", "Lean theorems on hand model of the Newton loops + correspondence (full loops and single updates)"),
+
+ "C14": ("proof", "Theorems on the hand model of Device.get: FD vectors are the FD system of the stored grid; j = I/(pi r_e^2) 1e-4, fwhm = half the characteristic potential at E+phi_min, v_ra = -min phi, barrier correction = on-axis potential of the same beam at E+V_ax (on the trap grid, or the barrier grid when r_dt_bar is given), barrier potential shifted by V_ax; every override stored verbatim and independent of the other defaults; the trap potential is the ion-free e-beam solution (C13 model/theorems). Correspondence: Device.get field by field for every subset of overrides and n_grid incl. values not divisible by 6 (grid 1e-13, index exact, FD bit-exact, scalars 1e-10, potentials 1e-9). Monitored: strictly increasing grid with r_e as the indexed node, wall zero, outward monotone, between the two analytic uniform-beam potentials (with the solver's velocity model and a 1/k discretisation allowance).",
+         "§4 C14", "Lean theorems (decision logic) on hand model + field-by-field correspondence; analytic bounds monitored"),
 }
 PENDING = {}
 def main():
